@@ -89,11 +89,14 @@ class Refactoring:
         def calculate_to_path(p):
             if p is None:
                 return p
-            p = str(p)
+            p = Path(p)
             for from_, to in renames:
-                if p.startswith(str(from_)):
-                    p = str(to) + p[len(str(from_)):]
-            return Path(p)
+                try:
+                    p = Path(to).joinpath(p.relative_to(from_))
+                except ValueError:
+                    # Not the renamed file and not below the renamed directory.
+                    pass
+            return p
 
         renames = self.get_renames()
         return {
